@@ -24,8 +24,8 @@ AXES = {
     "exploits": ["e0", "e0e1", "e0e2", "e1e3", "e0e3", "e0e0b", "e1e0"],
     "privescs": ["none", "any_root", "os_root", "user_grant", "two", "dup_pair", "same_os"],
     "prob": ["one", "half", "mixed_zero", "fine"],
-    "cost": ["unit", "frac", "fine"],
-    "values": ["zero", "pos_neg", "frac"],
+    "cost": ["unit", "frac", "fine", "third"],
+    "values": ["zero", "pos_neg", "frac", "odd"],
     "discovery": ["zero", "one", "frac", "big_neg"],
     "sensitive": ["last", "two_subnets", "same_subnet", "public", "three"],
     "step_limit": [None, 1, 3],
@@ -99,7 +99,9 @@ def build(choice, name=None):
     p1 = procs[1] if len(procs) > 1 else procs[0]
     prob_of = {"one": [1.0, 1.0, 1.0, 1.0], "half": [0.5, 0.5, 0.5, 0.5], "mixed_zero": [0.5, 1.0, 0.0, 0.25],
                "fine": [0.996, 0.004, 0.333, 0.125]}[choice["prob"]]
-    cost_of = {"unit": [1, 1, 1, 1], "frac": [2.5, 1, 1.5, 3], "fine": [0.125, 1.375, 0.625, 2.005]}[choice["cost"]]
+    cost_of = {"unit": [1, 1, 1, 1], "frac": [2.5, 1, 1.5, 3], "fine": [0.125, 1.375, 0.625, 2.005],
+               # numbers that neither float32 nor six decimals represent exactly
+               "third": [1 / 3, 0.1, 2 / 3, 1.0000001]}[choice["cost"]]
     edefs = {
         "e0": {"service": srvs[0], "os": oss[0], "access": USER},
         "e1": {"service": srvs[0], "os": None, "access": ROOT},
@@ -147,7 +149,8 @@ def build(choice, name=None):
         spec["privescs"][nm] = d
     sc = {"unit": {"service": 1, "os": 1, "subnet": 1, "process": 1},
           "frac": {"service": 0, "os": 0.5, "subnet": 2, "process": 1},
-          "fine": {"service": 0.125, "os": 0.375, "subnet": 1.125, "process": 0.625}}[choice["cost"]]
+          "fine": {"service": 0.125, "os": 0.375, "subnet": 1.125, "process": 0.625},
+          "third": {"service": 0.1, "os": 1 / 3, "subnet": 0.1, "process": 2 / 3}}[choice["cost"]]
     spec["scan_costs"] = sc
 
     # ---- hosts: cyclic assignment of configuration patterns
@@ -158,7 +161,9 @@ def build(choice, name=None):
         {"os": os1, "services": [s1], "processes": [p1]},
         {"os": oss[0], "services": [s1], "processes": list(procs)},
     ]
-    val_cycle = {"zero": [0, 0, 0, 0, 0], "pos_neg": [1, -3, 0, 1, -3], "frac": [0.5, 0, 0.5, 1, 0]}[choice["values"]]
+    val_cycle = {"zero": [0, 0, 0, 0, 0], "pos_neg": [1, -3, 0, 1, -3], "frac": [0.5, 0, 0.5, 1, 0],
+                 # not representable in float32 / seven significant digits / large
+                 "odd": [0.1, 100.1, -0.3, 1234567, 0.7]}[choice["values"]]
     dv_cycle = {"zero": [0, 0, 0, 0, 0], "one": [1, 1, 1, 1, 1], "frac": [0.5, 0, 1, 0.5, 0],
                 "big_neg": [25, -2, 25, 0, 25]}[choice["discovery"]]
     spec["hosts"] = {}
@@ -396,6 +401,9 @@ def api_specs():
     out = []
     ring = build(base, name="api-ring")
     ring["exploits"] = {"e1": ring["exploits"]["e1"]}                 # one root-level exploit, no escalation
+    ring["exploits"]["e1"]["cost"] = 1 / 3                            # neither float32 nor 6 decimals hold these exactly
+    ring["scan_costs"] = dict(ring["scan_costs"], subnet=0.1)
+    ring["sensitive_hosts"][(4, 0)] = 100.1
     ring["topology"][1][4] = ring["topology"][4][1] = 1               # 1-2-3-4-1
     ring["firewall"][(1, 4)] = list(ring["services"]); ring["firewall"][(4, 1)] = list(ring["services"])
     out.append(ring)
@@ -457,6 +465,16 @@ def corner_specs():
     sp["firewall"][(0, 1)] = ["s1"]
     sp["firewall"][(1, 2)] = ["s1"]
     out.append(sp)
+    # an escalation that carries the NAME of an exploit (the two sections are separate name spaces)
+    mk("corner-shared-action-name", shape="1-2", sw="1os2s1p", exploits="e0e3", privescs="any_root", prob="half",
+       sensitive="two_subnets")
+    out[-1]["privescs"] = {"e0": out[-1]["privescs"]["pe0"]}
+    # Host objects constructed with status flags set (documented optional constructor arguments; the initial state
+    # of an episode is defined by the network - nothing is held, only public hosts are known - not by these flags)
+    mk("corner-host-status-flags", shape="1-2", sw="1os1s1p", exploits="e0", privescs="any_root", prob="half",
+       sensitive="last", discovery="one")
+    out[-1]["hosts"][(2, 0)]["_init_flags"] = {"compromised": True, "access": 2, "reachable": True, "discovered": True}
+    out[-1]["hosts"][(1, 0)]["_init_flags"] = {"compromised": True, "access": 1}
     mk("corner-split-rules", shape="1-1-1", topo="star", fw="split", sw="1os2s1p", exploits="e0e3", sensitive="two_subnets")
     mk("corner-split-two-public", shape="1-1-1", topo="two_public", fw="split", sw="1os2s1p", exploits="e0e3")
     mk("corner-shared-names", shape="1-2", sw="2os2s2p", exploits="e0e2", privescs="two", names="shared", sensitive="two_subnets",
